@@ -253,7 +253,10 @@ def main():
             kind = "crash"
             if tool:
                 kind = tool(res["err"] or "") or "crash"
-            fam, cfg, ordinal = (res["crumb"].split("|") + ["", "", "0"])[:3]
+            parts = res["crumb"].split("|")
+            fam = parts[0] if parts else ""
+            cfg = parts[1] if len(parts) > 1 else ""
+            ordinal = parts[-1].strip() if parts and parts[-1].strip().isdigit() else "0"
             relevant = kind in spec.get("tool_kinds", ["crash"]) or kind == "crash"
             rec = dict(t="viol", prop=prop, kind=kind, sig=f"{kind}:{mode}", detail=f"shard died (rc={res['rc']}) in case [{res['crumb']}]: {tail}",
                        desc=res["crumb"], cfg=cfg, family=fam, ordinal=int(ordinal or 0), seed=seed, mode=mode)
